@@ -47,7 +47,7 @@ def _write_batch(call, tr, env):
     obj, oty = tr.expr(call.args[0])
     if oty != 'list':
         raise Untranslatable('write_to_disk of a non-list in the Sower')
-    path = call.args[1]
+    path = tr.resolve(call.args[1])
     fm = [n for n in ast.walk(path) if isinstance(n, ast.Call) and ast.unparse(n.func) == 'BTCH_NM.format' and len(n.args) == 1]
     if len(fm) != 1 or not (isinstance(path, ast.Call) and ast.unparse(path.func) == 'os.path.join'):
         raise Untranslatable('batch file name shape')
